@@ -27,7 +27,9 @@ func read(ctx context.Context, c *websocket.Conn, v interface{}) (err error) {
 	}
 
 	b := bpool.Get()
+	vBuf(c, "PoolGet", b)
 	defer bpool.Put(b)
+	defer vBuf(c, "PoolPut", b)
 
 	_, err = b.ReadFrom(r)
 	if err != nil {
